@@ -566,7 +566,7 @@ macro_rules! shape_step {
 }
 
 // add
-shape_step!(shape_q_add_b_to_a, RAB, src = [true, false], dst = [true, true], add B, n1 = 2, n2 = 1, cap2 = 1, s = 4, f = 1);
+shape_step!(shape_q_add_b_to_a, RAB, src = [true, false], dst = [true, true], add B, n1 = 3, n2 = 1, cap2 = 1, s = 4, f = 0);
 shape_step!(shape_t_add_w_dbwa, RDBWA, src = [true, true, false, true], dst = [true, true, true, true], add W, n1 = 2, n2 = 0, cap2 = 0, s = 2, f = 0);
 shape_step!(shape_t_add_d_azd, RAZD, src = [true, true, false], dst = [true, true, true], add D, n1 = 1, n2 = 2, cap2 = 3, s = 3, f = 0);
 shape_step!(shape_t_add_a_first, RAZD, src = [false, false, true], dst = [true, false, true], add A, n1 = 2, n2 = 1, cap2 = 1, s = 3, f = 0);
